@@ -53,6 +53,8 @@ struct Engine {
 	// neutral values used by the shrinker for config keys ("defaults"); keys not listed are left alone
 	virtual std::map<std::string, int64_t> neutral_cfg() const { return {}; }
 	virtual std::string nontrivial_rule() const { return ""; }
+	// what one element of RunResult::abstract_states stands for (the "distinct states reached" measure of the evidence)
+	virtual std::string state_measure() const { return "engine-specific abstract state after every op"; }
 };
 
 Engine *engine_by_name(const std::string &n);
